@@ -94,7 +94,16 @@ Proof. exact other_files_untouched_l. Qed.
 Print Assumptions other_files_untouched.
 
 (* the implementation's walk over the source (copytree pre-order / zip member order) enumerates exactly the
-   content of the source as Spec.src_lookup describes it *)
+   content of the source as Spec.src_lookup describes it.
+   NAMES: Model.name is [string] and a path a list of names; nothing in Model.v / Spec.v / Check.v restricts the alphabet.  The
+   only names that are ever inspected are the two marker names (equality), the suffix ".zip" of the entries directly inside
+   the source directory (is_zip_name = item.endswith(".zip")) and the temporary sibling <dst>.autocopy_tmp (append).  The
+   config c in this theorem - like in every theorem of this file - is universally quantified, so it holds for file and
+   directory names with consecutive / leading / trailing dots, spaces, any bytes (non-ASCII names are their UTF-8 bytes),
+   names of any length, names that differ only in case, names that contain "autocopy", marker names below the top level,
+   any nesting depth and empty directories: a member "take..2.wav" or a directory "v1..v2" IS part of the source and
+   complete_copy demands it (example dotted_names_are_names below; harness: NAME_CLASSES / gen_name in harness/c20.py, one
+   logical tree in all three source formats judged against the same tree) *)
 Theorem copy_walk_is_the_source : forall c, src_ok c = true -> forall r e,
     In (r, e) (src_entries c) <->
     (r = [] /\ e = Dir /\ In ([], Dir) (src_entries c)) \/ (r <> [] /\ src_lookup c r = Some e).
@@ -275,3 +284,35 @@ Example refuting_histories_are_handled_now : forall h, h = w1_history \/ h = w2_
     exists s' r evs, history_run true true w_cfg h [w_dst ++ [sname]] [] w_s0 = Some (s', r, evs)
                      /\ complete_copyb w_cfg s' = true /\ was_copied r = true.
 Proof. exact w_repaired_ok. Qed.
+
+(* names are arbitrary strings: a single zip whose members have consecutive / leading / trailing dots, a space as a name,
+   siblings that differ only in case, marker names below the top level and a name containing a quote satisfies the premises;
+   the uninterrupted call over it returns, the copy is complete, and completeness means that these very members exist *)
+Definition dots_cfg : config :=
+  {| c_variant := VFolder; c_parent := ["l"%string]; c_name := "my data..v1"%string; c_dir := None; c_zips := [];
+     c_zip := Some [ {| m_path := ["take..2.wav"%string]; m_file := Some [1%Z; 2%Z] |};
+                     {| m_path := ["v1..v2"%string; "..."%string; " "%string]; m_file := Some [8%Z] |};
+                     {| m_path := ["..hidden"%string]; m_file := Some [] |};
+                     {| m_path := ["trailing.."%string]; m_file := None |};
+                     {| m_path := ["A.txt"%string]; m_file := Some [65%Z] |};
+                     {| m_path := ["a.txt"%string]; m_file := Some [97%Z] |};
+                     {| m_path := ["sub"%string; "autocopy_end.txt"%string]; m_file := Some [2%Z] |};
+                     {| m_path := ["q""uote"%string]; m_file := Some [34%Z] |} ];
+     c_workers := 0 |}.
+
+Example dotted_names_are_names :
+    src_ok dots_cfg = true /\ fresh dots_cfg [([], Dir); (["l"%string], Dir)] /\
+    src_lookup dots_cfg ["take..2.wav"%string] = Some (File [1%Z; 2%Z]) /\
+    src_lookup dots_cfg ["v1..v2"%string; "..."%string] = Some Dir /\
+    src_lookup dots_cfg ["trailing.."%string] = Some Dir /\
+    exists s' evs, invoke true true dots_cfg [] [] [([], Dir); (["l"%string], Dir)] = Some (s', res_create dots_cfg, evs)
+                   /\ complete_copyb dots_cfg s' = true
+                   /\ lookup s' (dst dots_cfg ++ ["take..2.wav"%string]) = Some (File [1%Z; 2%Z])
+                   /\ lookup s' (dst dots_cfg ++ ["v1..v2"%string; "..."%string; " "%string]) = Some (File [8%Z])
+                   /\ lookup s' (dst dots_cfg ++ ["a.txt"%string]) = Some (File [97%Z])
+                   /\ lookup s' (dst dots_cfg ++ ["A.txt"%string]) = Some (File [65%Z]).
+Proof.
+  split; [vm_compute; reflexivity|]. split; [split; intros r; reflexivity|].
+  split; [vm_compute; reflexivity|]. split; [vm_compute; reflexivity|]. split; [vm_compute; reflexivity|].
+  eexists. eexists. split; [vm_compute; reflexivity|]. repeat split; vm_compute; reflexivity.
+Qed.
